@@ -335,6 +335,17 @@ func (capHandler) WithGroup(string) slog.Handler            { return capHandler{
 type slotKey struct{}
 
 func (capHandler) Handle(ctx context.Context, r slog.Record) error {
+	if r.Message == "failed to write JSON response" {
+		// the encoding (or write) failure record: kept as a marker, its error text is encoding/json's
+		capMu.Lock()
+		slot := curSlot
+		if v, ok := ctx.Value(slotKey{}).(int); ok {
+			slot = v
+		}
+		capLogs[slot] = append(capLogs[slot], logRec{err: r.Message, status: 0})
+		capMu.Unlock()
+		return nil
+	}
 	if r.Message != "handler error" {
 		return nil
 	}
